@@ -840,15 +840,16 @@ Proof. intros s a b E. destruct s as [p e t c l j pp fs fe sg d ub ok v cl]. cbn
 (** ** the strict contexts (top-level value, array body, object body) of the skip machines *)
 Section Skip.
   Variable md : Z.
+  Variable chk : bool.
   Variable start : sstate.
   Variable data : list byte.
   Variable h : handler.
   Hypothesis md_nonneg : 0 <= md.
 
-  Notation ReachS := (Reach md true start data h).
-  Notation EndsS := (Ends md true start data h).
+  Notation ReachS := (Reach md chk start data h).
+  Notation EndsS := (Ends md chk start data h).
   Notation AtS := (At data).
-  Notation contS := (cont md true start data h).
+  Notation contS := (cont md chk start data h).
 
   Lemma ErrAny_frame : forall s s' o, frame s' = frame s -> ErrAny s' o -> ErrAny s o.
   Proof.
@@ -874,7 +875,7 @@ Section Skip.
   Proof. intros c t [->|[->| ->]]; reflexivity. Qed.
 
   (** *** a complete number token hands the next byte to the after-value position *)
-  Lemma after_struct : forall c b, strict c -> strans true (c, after c) b = struct_step true c (after c) b.
+  Lemma after_struct : forall c b, strict c -> strans chk (c, after c) b = struct_step chk c (after c) b.
   Proof. intros c b [->|[->| ->]]; reflexivity. Qed.
   Lemma seof_complete : forall c t, strict c -> tok_complete t = true -> seof (c, PTok t) = seof (c, after c).
   Proof. intros c t [->|[->| ->]] T; cbn; rewrite T; reflexivity. Qed.
@@ -889,10 +890,10 @@ Section Skip.
     intros c t s l SC IT H C f F. exists f. split; auto.
     assert (TC : tok_complete t = true) by (destruct t; try discriminate; reflexivity).
     destruct l as [|b r].
-    - rewrite !(cont_eof md true start data h f _ s H). rewrite (seof_complete c t SC TC). reflexivity.
+    - rewrite !(cont_eof md chk start data h f _ s H). rewrite (seof_complete c t SC TC). reflexivity.
     - destruct C as (TS & D & X). destruct f as [|f].
       + rewrite (rem_cons data _ _ _ H) in F. lia.
-      + rewrite !(cont_S md true start data h f _ s b r H).
+      + rewrite !(cont_S md chk start data h f _ s b r H).
         rewrite (after_struct c b SC). unfold strans. unfold is, ch_dot. rewrite D, X, !andb_false_r. cbn [andb].
         rewrite TS. reflexivity.
   Qed.
@@ -911,7 +912,7 @@ Section Skip.
     - destruct (bz b =? 46) eqn:D.
       + (* '.' *)
         pose proof (scanDec_ref data _ _ _ H D) as SD.
-        assert (T : strans true (c, PTok t) b = ([UScanDec; UBreakIfErr 0], Some (c, after c))).
+        assert (T : strans chk (c, PTok t) b = ([UScanDec; UBreakIfErr 0], Some (c, after c))).
         { unfold strans. rewrite (strict_scans c SC), IT. unfold is, ch_dot. rewrite D. reflexivity. }
         destruct (tail_ref (b :: r)) as [k|] eqn:TR.
         * assert (K : (2 <= k <= length (b :: r))%nat).
@@ -938,7 +939,7 @@ Section Skip.
       + destruct (is_exp b) eqn:X.
         * (* exponent *)
           pose proof (scanExp_ref data _ _ _ H X) as SE.
-          assert (T : strans true (c, PTok t) b = ([UScanExp; UBreakIfErr 0], Some (c, after c))).
+          assert (T : strans chk (c, PTok t) b = ([UScanExp; UBreakIfErr 0], Some (c, after c))).
           { unfold strans. rewrite (strict_scans c SC), IT. unfold is, ch_dot. rewrite D, X. reflexivity. }
           assert (TR : tail_ref (b :: r) = exp_part (b :: r)).
           { unfold tail_ref, frac_part. change (isb 46 b) with (bz b =? 46). rewrite D. cbn [skipn].
@@ -970,9 +971,9 @@ Section Skip.
   Definition pdom (t : tok) : bool := negb (tok_complete t).
   Lemma pdom_go : forall c, strict c -> forall t b, pdom t = true ->
     match tok_step t b with
-    | TGo t' => strans true (c, PTok t) b = ([], Some (c, PTok t'))
-    | TEnd => strans true (c, PTok t) b = ([], Some (c, after c))
-    | TErr => strans true (c, PTok t) b = fail c
+    | TGo t' => strans chk (c, PTok t) b = ([], Some (c, PTok t'))
+    | TEnd => strans chk (c, PTok t) b = ([], Some (c, after c))
+    | TErr => strans chk (c, PTok t) b = fail c
     | TStop => True
     end.
   Proof. intros c SC t b D. apply ptok_go; [apply negb_true_iff; exact D|apply strict_end_units; exact SC]. Qed.
@@ -986,7 +987,7 @@ Section Skip.
     end.
   Proof.
     intros c s r SC H.
-    apply (string_run md true start data h c (fun t => (c, PTok t)) (c, after c) pdom
+    apply (string_run md chk start data h c (fun t => (c, PTok t)) (c, after c) pdom
              (pdom_go c SC) (pdom_eof c) ltac:(repeat split; reflexivity) (length r) r s (le_n _) H).
   Qed.
 
@@ -995,7 +996,7 @@ Section Skip.
     else EndsS (c, PTok t) s (ErrOf c s).
   Proof.
     intros c t s r SC IL H.
-    apply (lit_ok md true start data h c (fun t => (c, PTok t)) (c, after c) pdom
+    apply (lit_ok md chk start data h c (fun t => (c, PTok t)) (c, after c) pdom
              (pdom_go c SC) (pdom_eof c) lit_not_complete t IL s r H).
   Qed.
 
@@ -1008,7 +1009,7 @@ Section Skip.
   Proof.
     intros c s r SC H E.
     assert (L : ReachS (c, PTok TInt) s (c, PTok TInt) (adv s (digits r))).
-    { apply (while_loop md true start data h is_digit); [|exact H].
+    { apply (while_loop md chk start data h is_digit); [|exact H].
       intros b D. destruct (digit_not_dot_exp b D) as [N1 N2].
       unfold strans. unfold is, ch_dot. rewrite N1, N2, !andb_false_r. cbn [andb]. cbn [tok_step]. rewrite D. reflexivity. }
     pose proof (At_adv data s r (digits r) H (digits_le r)) as H1.
@@ -1024,7 +1025,7 @@ Section Skip.
 
   (** from the state after the first digit *)
   Lemma unsigned_run : forall c s d r q, strict c -> AtS s (d :: r) -> s_err s = None -> is_digit d = true ->
-    (forall t, tok_first d = Some t -> strans true q d = ([], Some (c, PTok t))) ->
+    (forall t, tok_first d = Some t -> strans chk q d = ([], Some (c, PTok t))) ->
     isb 34 d = false -> isb 45 d = false ->
     match unsigned_tok (d :: r) with
     | Some n => ReachS q s (c, after c) (adv s n) /\ (n <= length (d :: r))%nat
@@ -1070,14 +1071,14 @@ Section Skip.
 
   (** a scalar value token, from a position that starts values *)
   Lemma scalar_run : forall c q s b r, strict c -> AtS s (b :: r) -> s_err s = None ->
-    strans true q b = value_start true c b -> isb 91 b = false -> isb 123 b = false ->
+    strans chk q b = value_start chk c b -> isb 91 b = false -> isb 123 b = false ->
     match scalar_tok (b :: r) with
     | Some n => ReachS q s (c, after c) (adv s n) /\ (n <= length (b :: r))%nat
     | None => EndsS q s (ErrAny s)
     end.
   Proof.
     intros c q s b r SC H E VS0 NA NO.
-    assert (VS : strans true q b = match tok_first b with Some t => ([], Some (c, PTok t)) | None => fail c end).
+    assert (VS : strans chk q b = match tok_first b with Some t => ([], Some (c, PTok t)) | None => fail c end).
     { rewrite VS0. unfold value_start. change (is ch_lbrack b) with (isb 91 b). change (is ch_lbrace b) with (isb 123 b).
       rewrite NA, NO. destruct (tok_first b); [rewrite (handler_units_strict c _ SC)|]; reflexivity. }
     pose proof (At_adv1 data _ _ _ H) as H1.
@@ -1104,7 +1105,7 @@ Section Skip.
         destruct (is_digit d) eqn:D.
         + destruct (digit_not_quote_minus d D) as [Q' M'].
           pose proof (unsigned_run c (adv s 1) d r' (c, PTok TNeg) SC H1 E D) as U.
-          assert (TF : forall t, tok_first d = Some t -> strans true (c, PTok TNeg) d = ([], Some (c, PTok t))).
+          assert (TF : forall t, tok_first d = Some t -> strans chk (c, PTok TNeg) d = ([], Some (c, PTok t))).
           { intros t TFd. pose proof (pdom_go c SC TNeg d eq_refl) as G. rewrite TN in G.
             unfold tok_first in TFd. change (is ch_quote d) with (isb 34 d) in TFd. change (is ch_minus d) with (isb 45 d) in TFd.
             rewrite Q', M' in TFd. unfold is, ch_zero in TFd. change (is_digit19 d) with (r_is_digit19 d) in TFd.
@@ -1156,14 +1157,14 @@ Section Skip.
 
   (** *** the call stack *)
   Definition Inv (s : st) (sg : list Z) : Prop :=
-    s_live s = sg /\ s_top s = len sg /\ s_cap s = len sg + len (s_junk s) /\ s_err s = None /\ len sg <= md.
+    s_live s = sg /\ s_top s = len sg /\ s_cap s = len sg + len (s_junk s) /\ s_err s = None /\ (chk = true -> len sg <= md).
 
   Lemma Inv_adv : forall s sg n, Inv s sg -> Inv (adv s n) sg.
   Proof. intros s sg n I. exact I. Qed.
   Lemma Inv_err : forall s sg, Inv s sg -> s_err s = None.
   Proof. intros s sg (_ & _ & _ & E & _). exact E. Qed.
 
-  Lemma ret_step : forall q q1 qret s sg b r, AtS s (b :: r) -> strans true q b = ([URet], Some q1) ->
+  Lemma ret_step : forall q q1 qret s sg b r, AtS s (b :: r) -> strans chk q b = ([URet], Some q1) ->
     Inv s (enc qret :: sg) ->
     exists s', ReachS q s qret s' /\ s_p s' = s_p s + 1 /\ Inv s' sg /\ frame s' = frame s.
   Proof.
@@ -1176,7 +1177,7 @@ Section Skip.
   Qed.
 
   Lemma call_step : forall q q1 qret qtgt s sg b r, AtS s (b :: r) ->
-    strans true q b = ([UCall true 0 (enc qret) (enc qtgt)], Some q1) -> Inv s sg ->
+    strans chk q b = ([UCall chk 0 (enc qret) (enc qtgt)], Some q1) -> Inv s sg ->
     if md <=? len sg then EndsS q s (ErrAny s)
     else exists s', ReachS q s qtgt s' /\ s_p s' = s_p s + 1 /\ Inv s' (enc qret :: sg) /\ frame s' = frame s.
   Proof.
@@ -1246,7 +1247,7 @@ Section Skip.
   (** *** comma-separated items up to the closing bracket, and the return to the caller *)
   Definition IStart (c : ctx) (q : sstate) (l : list byte) : Prop :=
     seof q = eof_units c /\
-    forall b r, l = b :: r -> is_ws b = false /\ strans true q b = strans true (c, PNext) b.
+    forall b r, l = b :: r -> is_ws b = false /\ strans chk q b = strans chk (c, PNext) b.
 
   Definition ItemOK (c : ctx) (item : list byte -> option nat) (sg : list Z) (bound : nat) : Prop :=
     forall q l s, (length l < bound)%nat -> AtS s l -> Inv s sg -> IStart c q l ->
@@ -1255,13 +1256,13 @@ Section Skip.
   Definition body (c : ctx) : Prop := c = CArr \/ c = CObj.
 
   Lemma after_step : forall c b, body c -> is_ws b = false ->
-    strans true (c, PAfter) b =
+    strans chk (c, PAfter) b =
     if isb 44 b then ([], Some (c, PNext))
     else if isb (closer c) b then ([URet], Some (c, PDone)) else fail c.
   Proof. intros c b [->| ->] W; cbn; rewrite W; reflexivity. Qed.
 
   Lemma ws_stay : forall c p, body c -> (p = PStart \/ p = PAfter \/ p = PNext \/ p = PColon \/ p = PVal) ->
-    forall b, is_ws b = true -> strans true (c, p) b = ([], Some (c, p)).
+    forall b, is_ws b = true -> strans chk (c, p) b = ([], Some (c, p)).
   Proof. intros c p [->| ->] [->|[->|[->|[->| ->]]]] b W; cbn; rewrite W; reflexivity. Qed.
 
   Lemma items_ok : forall c item sg qret bound, body c -> ItemOK c item (enc qret :: sg) bound ->
@@ -1273,7 +1274,7 @@ Section Skip.
     destruct (item l) as [n|]; [|exact G]. destruct G as (N & s1 & R1 & P1 & I1 & F1).
     pose proof (At_move _ _ _ _ H P1 N) as H1.
     set (l1 := skipn n l) in *. set (w := ws l1).
-    pose proof (ws_loop md true start data h (c, PAfter) (ws_stay c PAfter BC ltac:(auto)) l1 s1 H1) as R2. fold w in R2.
+    pose proof (ws_loop md chk start data h (c, PAfter) (ws_stay c PAfter BC ltac:(auto)) l1 s1 H1) as R2. fold w in R2.
     pose proof (At_adv data s1 l1 w H1 (ws_le l1)) as H2.
     assert (LL : (length (skipn w l1) + w + n = length l)%nat).
     { rewrite skipn_length. unfold l1. rewrite skipn_length. pose proof (ws_le l1). fold w in H0. unfold l1 in H0.
@@ -1288,7 +1289,7 @@ Section Skip.
         assert (R3 : ReachS (c, PAfter) (adv s1 w) (c, PNext) (adv (adv s1 w) 1)) by (eapply Reach_silent; [exact H2|exact AS]).
         pose proof (At_adv1 data _ _ _ H2) as H3.
         set (w1 := ws r1).
-        pose proof (ws_loop md true start data h (c, PNext) (ws_stay c PNext BC ltac:(auto)) r1 _ H3) as R4. fold w1 in R4.
+        pose proof (ws_loop md chk start data h (c, PNext) (ws_stay c PNext BC ltac:(auto)) r1 _ H3) as R4. fold w1 in R4.
         pose proof (At_adv data _ r1 w1 H3 (ws_le r1)) as H4.
         assert (L4 : (length (skipn w1 r1) <= length r1)%nat) by (rewrite skipn_length; lia).
         assert (IS4 : IStart c (c, PNext) (skipn w1 r1)).
@@ -1319,12 +1320,12 @@ Section Skip.
 
   (** *** the inside of a container: from just after the opening bracket to the return *)
   Lemma start_step : forall c b, body c -> is_ws b = false -> isb (closer c) b = false ->
-    strans true (c, PStart) b = strans true (c, PNext) b.
+    strans chk (c, PStart) b = strans chk (c, PNext) b.
   Proof.
     intros c b [->| ->] W C; unfold isb in C; cbn in C; cbn; rewrite W; unfold is; cbn; rewrite C; reflexivity.
   Qed.
   Lemma start_close : forall c b, body c -> is_ws b = false -> isb (closer c) b = true ->
-    strans true (c, PStart) b = ([URet], Some (c, PDone)).
+    strans chk (c, PStart) b = ([URet], Some (c, PDone)).
   Proof.
     intros c b [->| ->] W C; unfold isb in C; cbn in C; cbn; rewrite W; unfold is; cbn; rewrite C; reflexivity.
   Qed.
@@ -1335,7 +1336,7 @@ Section Skip.
   Proof.
     intros c item sg qret f BC IO r s LF H I. unfold container.
     set (w := ws r).
-    pose proof (ws_loop md true start data h (c, PStart) (ws_stay c PStart BC ltac:(auto)) r s H) as R1. fold w in R1.
+    pose proof (ws_loop md chk start data h (c, PStart) (ws_stay c PStart BC ltac:(auto)) r s H) as R1. fold w in R1.
     pose proof (At_adv data s r w H (ws_le r)) as H1.
     assert (LL : (length (skipn w r) + w = length r)%nat).
     { rewrite skipn_length. pose proof (ws_le r). fold w in H0. lia. }
@@ -1368,10 +1369,10 @@ Section Skip.
   (** *** the main induction: a value in a strict context *)
   Definition ValueOK (f : nat) : Prop :=
     forall sg c q l s, (length l < f)%nat -> strict c -> AtS s l -> Inv s sg -> seof q = eof_units c ->
-      (forall b r, l = b :: r -> strans true q b = value_start true c b) ->
+      (forall b r, l = b :: r -> strans chk q b = value_start chk c b) ->
       Good q s l sg (value_len md f (len sg) l) (c, after c).
 
-  Lemma next_value : forall b, is_ws b = false -> strans true (CArr, PNext) b = value_start true CArr b.
+  Lemma next_value : forall b, is_ws b = false -> strans chk (CArr, PNext) b = value_start chk CArr b.
   Proof. intros b W. cbn. rewrite W. reflexivity. Qed.
 
   Lemma array_items : forall f sg qret, ValueOK f -> ItemOK CArr (value_len md f (len sg + 1)) (enc qret :: sg) f.
@@ -1385,9 +1386,9 @@ Section Skip.
   (** object members: key, colon, value *)
   Lemma key_go : forall t b, match t with TStr | TEsc | TU4 | TU3 | TU2 | TU1 => true | _ => false end = true ->
     match tok_step t b with
-    | TGo t' => strans true (CObj, PKey t) b = ([], Some (CObj, PKey t'))
-    | TEnd => strans true (CObj, PKey t) b = ([], Some (CObj, PColon))
-    | TErr => strans true (CObj, PKey t) b = fail CObj
+    | TGo t' => strans chk (CObj, PKey t) b = ([], Some (CObj, PKey t'))
+    | TEnd => strans chk (CObj, PKey t) b = ([], Some (CObj, PColon))
+    | TErr => strans chk (CObj, PKey t) b = fail CObj
     | TStop => True
     end.
   Proof. intros t b D. unfold strans. destruct (tok_step t b); auto. Qed.
@@ -1399,13 +1400,13 @@ Section Skip.
     destruct l as [|b r].
     - apply (Ends_Of_Any CObj). apply fail_eof; [exact H|exact SE].
     - destruct (ST b r eq_refl) as [W T].
-      assert (T' : strans true q b = if isb 34 b then ([], Some (CObj, PKey TStr)) else fail CObj).
+      assert (T' : strans chk q b = if isb 34 b then ([], Some (CObj, PKey TStr)) else fail CObj).
       { rewrite T. cbn. rewrite W. reflexivity. }
       destruct (isb 34 b) eqn:Q.
       2:{ apply (Ends_Of_Any CObj). eapply fail_step; [exact H|exact T']. }
       assert (R1 : ReachS q s (CObj, PKey TStr) (adv s 1)) by (eapply Reach_silent; [exact H|exact T']).
       pose proof (At_adv1 data _ _ _ H) as H1.
-      pose proof (string_run md true start data h CObj (fun t => (CObj, PKey t)) (CObj, PColon)
+      pose proof (string_run md chk start data h CObj (fun t => (CObj, PKey t)) (CObj, PColon)
                     (fun t => match t with TStr | TEsc | TU4 | TU3 | TU2 | TU1 => true | _ => false end)
                     key_go (fun t _ => eq_refl) ltac:(repeat split; reflexivity) (length r) r (adv s 1) (le_n _) H1) as SR.
       destruct (string_body r) as [kb|]; cbn [option_map].
@@ -1414,7 +1415,7 @@ Section Skip.
       change (skipn (S kb) (b :: r)) with (skipn kb r).
       pose proof (At_adv data _ r kb H1 KB) as H2. rewrite adv_adv in H2.
       set (l2 := skipn kb r) in *. set (w := ws l2).
-      pose proof (ws_loop md true start data h (CObj, PColon) (ws_stay CObj PColon ltac:(right; reflexivity) ltac:(auto 6)) l2 _ H2) as R3.
+      pose proof (ws_loop md chk start data h (CObj, PColon) (ws_stay CObj PColon ltac:(right; reflexivity) ltac:(auto 6)) l2 _ H2) as R3.
       fold w in R3. rewrite adv_adv in R3.
       pose proof (At_adv data _ l2 w H2 (ws_le l2)) as H3. rewrite adv_adv in H3.
       assert (LL : (length (skipn w l2) + w + kb = length r)%nat).
@@ -1425,7 +1426,7 @@ Section Skip.
       destruct (skipn w l2) as [|c0 r3] eqn:K.
       { chainA RR. apply (Ends_Of_Any CObj). apply fail_eof; [exact H3|reflexivity]. }
       pose proof (ws_next _ _ _ K) as NW. cbn [length] in LL.
-      assert (TC : strans true (CObj, PColon) c0 = if isb 58 c0 then ([], Some (CObj, PVal)) else fail CObj).
+      assert (TC : strans chk (CObj, PColon) c0 = if isb 58 c0 then ([], Some (CObj, PVal)) else fail CObj).
       { cbn. rewrite NW. reflexivity. }
       destruct (isb 58 c0) eqn:CO.
       2:{ chainA RR. apply (Ends_Of_Any CObj). eapply fail_step; [exact H3|exact TC]. }
@@ -1433,14 +1434,14 @@ Section Skip.
       { rewrite <- (adv_adv s (1 + kb + w) 1). eapply Reach_silent; [exact H3|exact TC]. }
       pose proof (At_adv1 data _ _ _ H3) as H4. rewrite adv_adv in H4.
       set (w1 := ws r3).
-      pose proof (ws_loop md true start data h (CObj, PVal) (ws_stay CObj PVal ltac:(right; reflexivity) ltac:(auto 6)) r3 _ H4) as R5.
+      pose proof (ws_loop md chk start data h (CObj, PVal) (ws_stay CObj PVal ltac:(right; reflexivity) ltac:(auto 6)) r3 _ H4) as R5.
       fold w1 in R5. rewrite adv_adv in R5.
       pose proof (At_adv data _ r3 w1 H4 (ws_le r3)) as H5. rewrite adv_adv in H5.
       assert (I5 : Inv (adv s (1 + kb + w + 1 + w1)) (enc qret :: sg)) by (apply Inv_adv; exact I).
       assert (L5 : (length (skipn w1 r3) < f)%nat) by (rewrite skipn_length; cbn [length] in L; lia).
       pose proof (V (enc qret :: sg) CObj (CObj, PVal) (skipn w1 r3) _ L5 ltac:(right; right; reflexivity) H5 I5 eq_refl) as G.
       rewrite len_cons, Z.add_comm in G.
-      assert (VS : forall b0 r0, skipn w1 r3 = b0 :: r0 -> strans true (CObj, PVal) b0 = value_start true CObj b0).
+      assert (VS : forall b0 r0, skipn w1 r3 = b0 :: r0 -> strans chk (CObj, PVal) b0 = value_start chk CObj b0).
       { intros b0 r0 E. pose proof (ws_next _ _ _ E) as W0. cbn. rewrite W0. reflexivity. }
       specialize (G VS).
       assert (SK : skipn (1 + kb + w + 1 + w1) (b :: r) = skipn w1 r3).
@@ -1457,7 +1458,7 @@ Section Skip.
 
   Lemma call_value : forall c b sub, strict c -> (sub = CArr \/ sub = CObj) ->
     isb (if match sub with CArr => true | _ => false end then 91 else 123) b = true -> isb 91 b = (match sub with CArr => true | _ => false end) ->
-    value_start true c b = ([UCall true 0 (enc (c, after c)) (enc (sub, PStart))], Some (c, after c)).
+    value_start chk c b = ([UCall chk 0 (enc (c, after c)) (enc (sub, PStart))], Some (c, after c)).
   Proof.
     intros c b sub SC SB B1 B2. unfold value_start. change (is ch_lbrack b) with (isb 91 b). change (is ch_lbrace b) with (isb 123 b).
     destruct SB as [->| ->]; rewrite B2; [|rewrite B1]; rewrite (handler_units_strict c true SC);
@@ -1473,7 +1474,7 @@ Section Skip.
     specialize (VS b r eq_refl). cbn [length] in L.
     pose proof (At_adv1 data _ _ _ H) as H1.
     assert (NEST : forall sub item, (sub = CArr \/ sub = CObj) ->
-              strans true q b = ([UCall true 0 (enc (c, after c)) (enc (sub, PStart))], Some (c, after c)) ->
+              strans chk q b = ([UCall chk 0 (enc (c, after c)) (enc (sub, PStart))], Some (c, after c)) ->
               ItemOK sub item (enc (c, after c) :: sg) f ->
               Good q s (b :: r) sg (if md <=? len sg then None else option_map S (container f item (closer sub) r)) (c, after c)).
     { intros sub item SB T IO. pose proof (call_step q _ (c, after c) (sub, PStart) s sg b r H T I) as CS.
@@ -1497,21 +1498,21 @@ Section Skip.
   Lemma skip_run : forall stack dst, start = (CTop, PStart) ->
     match skip_ref_md md data with
     | Some n => 0 <= n <= len data /\
-                exists s, prun md (spec_machine true start) data h stack dst = ODone n None s /\ s_dst s = dst
-    | None => exists p e s, prun md (spec_machine true start) data h stack dst = ODone p (Some e) s
+                exists s, prun md (spec_machine chk start) data h stack dst = ODone n None s /\ s_dst s = dst
+    | None => exists p e s, prun md (spec_machine chk start) data h stack dst = ODone p (Some e) s
     end.
   Proof.
     intros stack dst ST. set (s0 := init_st stack dst).
     pose proof (At_init data stack dst) as H0. fold s0 in H0.
-    assert (TOPWS : forall b, is_ws b = true -> strans true (CTop, PStart) b = ([], Some (CTop, PStart))).
+    assert (TOPWS : forall b, is_ws b = true -> strans chk (CTop, PStart) b = ([], Some (CTop, PStart))).
     { intros b W. cbn. rewrite W. reflexivity. }
-    pose proof (ws_loop md true start data h (CTop, PStart) TOPWS data s0 H0) as R0.
+    pose proof (ws_loop md chk start data h (CTop, PStart) TOPWS data s0 H0) as R0.
     pose proof (At_adv data s0 data (ws data) H0 (ws_le data)) as H1.
     assert (I0 : Inv (adv s0 (ws data)) []).
     { unfold Inv. cbn. unfold len. cbn. repeat split; auto; lia. }
     assert (L : (length (skipn (ws data) data) < length data + 2)%nat) by (rewrite skipn_length; lia).
     pose proof (value_ok (length data + 2) [] CTop (CTop, PStart) _ _ L ltac:(left; reflexivity) H1 I0 eq_refl) as G.
-    assert (VS : forall b r, skipn (ws data) data = b :: r -> strans true (CTop, PStart) b = value_start true CTop b).
+    assert (VS : forall b r, skipn (ws data) data = b :: r -> strans chk (CTop, PStart) b = value_start chk CTop b).
     { intros b r E. pose proof (ws_next _ _ _ E) as W. cbn. rewrite W. reflexivity. }
     specialize (G VS). change (len (@nil Z)) with 0 in G.
     unfold skip_ref_md. destruct (value_len md (length data + 2) 0 (skipn (ws data) data)) as [n|]; cbn [option_map].
@@ -1519,13 +1520,13 @@ Section Skip.
       assert (H2 : AtS s' (skipn n (skipn (ws data) data))) by (eapply At_move; eauto).
       assert (E : EndsS start s0 (fun o => o = ODone (s_p s') (s_err s') s')).
       { rewrite ST. eapply Reach_Ends; [exact R0|]. eapply Reach_Ends; [exact R'|]. eapply done_ends. exact H2. }
-      apply (Ends_prun md true start data h stack dst) in E.
+      apply (Ends_prun md chk start data h stack dst) in E.
       split; [rewrite skipn_length in N; pose proof (ws_le data); unfold len; lia|]. exists s'. split.
       + rewrite E. rewrite (Inv_err _ _ I'). rewrite P', s_p_adv. cbn [s_p s0 init_st]. f_equal. lia.
       + unfold frame in F'. inversion F' as [[F1 F2 F3]]. rewrite F2. reflexivity.
     - assert (E : EndsS start s0 (ErrAny s0)).
       { rewrite ST. chainA R0. exact G. }
-      apply (Ends_prun md true start data h stack dst) in E. destruct E as (p & e & s' & E & _). eauto.
+      apply (Ends_prun md chk start data h stack dst) in E. destruct E as (p & e & s' & E & _). eauto.
   Qed.
 End Skip.
 
